@@ -1,5 +1,5 @@
 PROP = {'level': 'proof',
- 'coq': ['Properties/C08.v', 'Properties/C08_ext.v'],
+ 'coq': ['Properties/C08.v', 'Properties/C08_ext.v', 'Properties/C08_tl.v'],
  'coq_gen': ['Properties/C08_gen.v'],
  'rule': 'TL: for each of the 73 generated lite-server Go types and 10 basic kinds, reflection-filled values '
          'marshalled to valid encodings, then truncation at every offset, single-byte substitutions, trailing bytes, '
@@ -10,8 +10,10 @@ PROP = {'level': 'proof',
          'tags, Maybe/Either/EitherRef/Ref, sum types, and the hand-written decoders '
          'Hashmap/HashmapE/HashmapAug/HashmapAugE with UintN/IntN/BitsN keys, VmStack, VmStackValue, VmStkTuple, '
          'VmCellSlice, VmCont, Grams, VarUInteger, SnakeData, Bytes, Text (UTF-8 check), FixedLengthText, BinTree, '
-         'MsgAddress, the small enums) for 48 registered types (6 local types covering every constructor; Account, '
-         'ShardAccount, StateInit, CommonMsgInfo, CurrencyCollection, ConfigParams, StorageInfo, transaction phases, '
+         'MsgAddress, the small enums) for 50 registered types (Message and Transaction included: they hash the cell '
+         'first; whether boc.Cell.Hash() succeeds is supplied to the model as an oracle column, with directed trees '
+         'around depth 1024 where it fails) (6 local types covering every constructor; Account, ShardAccount, '
+         'StateInit, CommonMsgInfo, CurrencyCollection, ConfigParams, StorageInfo, transaction phases, '
          'MerkleProof/MerkleUpdate, dictionaries, stack types ...); descriptor-guided valid cell trees (valid '
          'dictionaries, stacks, tuples, snakes), truncated cells, dropped refs, flipped bits, pruned-branch / '
          'library / Merkle cells in every reference position and at the root, random trees, and directed prefixes at '
@@ -24,9 +26,8 @@ PROP = {'level': 'proof',
          'decodeLength, processQueryAnswer (also the same answer twice: must not hang), ParsePacket (valid, '
          'truncated, size-field attacks), and VmStack.UnmarshalTL / ParseContractMethods / '
          'decodeAccountDataFromProof on BOCs with 0..3 roots and damaged BOCs. Oracle-only (no model; exploration '
-         'support, not part of the claim): Block, BlockInfo, McStateExtra, Message, Transaction (both hash the cell '
-         'first and rewind the cursor), ShardStateUnsplit, ValueFlow. A class is (kind, type or family, mutation '
-         'family, outcome ok|err|panic|crash).',
+         'support, not part of the claim): Block, BlockInfo, McStateExtra, ShardStateUnsplit, ValueFlow '
+         '(value-dependent layouts). A class is (kind, type or family, mutation family, outcome ok|err|panic|crash).',
  'explanation': 'coq/Properties/C08.v: over a panic/allocation/step-annotated model of the repaired tl/decoder.go '
                 'and the mini-language of generated UnmarshalTL bodies, for every schema satisfying the decidable '
                 'condition sok and every byte string: never Panic, never out of fuel, allocation and steps <= '
@@ -49,7 +50,13 @@ PROP = {'level': 'proof',
                 'descriptors steps + modelled allocation <= usz(descriptor) * size-in-bytes * height of the tree, '
                 'independent of every announced depth / count / length; VmStack lists: 2*size + 912*height^2 with '
                 'the quadratic term shown to be real; VmStack.UnmarshalTL end to end (BOC parser of C07 + root '
-                'indexing + walker) never panics.',
+                'indexing + walker) never panics. Message and Transaction (hash first, then the fields) are inside '
+                'the same theorems with the hash result as a parameter. coq/Properties/C08_tl.v: the schema '
+                'condition without a rate (sokw: vector elements have a non-empty wire form, 4096 elements stay '
+                'below maxAlloc, nesting fits the fuel) is equivalent to sok for some rate; under it tl.Unmarshal '
+                'never panics and allocation + steps are linear; an empty-wire-form vector element makes 4 bytes '
+                "cost 65536 decode calls (the condition is necessary); the C10 checker's element-size bound implies "
+                'the maxAlloc part.',
  'assumptions': ['allocation is the sum of modelled requests; growth policies of reflect.Append and bytes.Buffer '
                  'enter as upper estimates (6x element size per append, 4x bytes read + 2048), checked empirically '
                  'by the TotalAlloc oracle',
@@ -58,8 +65,8 @@ PROP = {'level': 'proof',
                  '(r.Ids[i]) is proved on the model only (no fake-server run)',
                  'VmStack list decoding re-copies the tail per level (quadratic in the chain length): observation, '
                  'stated as its own theorem and allowed for explicitly in the allocation oracle',
-                 'TL-B types whose decoders hash the cell first (Message, Transaction, Block, BlockInfo, '
-                 'McStateExtra, ShardStateUnsplit, ValueFlow) are covered only by the guarded Go oracles '
+                 'TL-B types whose decoders are not descriptor-describable (Block, BlockInfo, McStateExtra, '
+                 'ShardStateUnsplit, ValueFlow: value-dependent layouts) are covered only by the guarded Go oracles '
                  '(exploration support, no model)',
                  'hashmap key types are UintN/IntN/BitsN whose decoder reads exactly FixedSize bits; the static Go '
                  'size of values enters the allocation estimate as a descriptor parameter',
@@ -67,7 +74,10 @@ PROP = {'level': 'proof',
                  'a constructor, tuple length without data, keys/values of different length) is a failure (keys '
                  'tlb-unsound-<Type>, tlb-use-panic-<Type>); accessor panics on sound values are counted '
                  'observations, currently one: tlb.Account.Status() panics on the zero Account that a skipped '
-                 'pruned-branch reference leaves in a ShardAccount (class observation:status-on-pruned-account)']}
+                 'pruned-branch reference leaves in a ShardAccount (class observation:status-on-pruned-account)',
+                 'Message / Transaction: boc.Cell.Hash() success is an oracle column computed by the Go harness '
+                 '(arbitrary predicate in the theorems); they are modelled at the start of a cell only, where '
+                 'ResetCounters is the identity (all occurrences in the registered types)']}
 
 META = {'text': 'Machine-checked proof (Coq) over a model of the repaired tl/decoder.go in which every make/MakeSlice '
          'carries its panic condition and every allocation and decode call is counted: for every schema satisfying a '
@@ -87,9 +97,10 @@ META = {'text': 'Machine-checked proof (Coq) over a model of the repaired tl/dec
  'design_ref': 'DESIGN.md §6 C08',
  'note': 'Trusted: Coq kernel, extraction, drivers, Go harness. Runtime growth policies (reflect.Append, '
          "bytes.Buffer) are upper estimates in the model, observed via TotalAlloc and the child's address-space "
-         'limit. Partial: step bound is a call count; decoders that hash the cell (Message, Transaction, Block*) run '
-         'only under the Go oracles; GetTransactions is not exercised on the Go side; no proved refinement between '
-         'the exotic-aware walker and TlbCore.dec (tied by correspondence instead).',
+         'limit. Partial: step bound is a call count; block-level decoders with value-dependent layouts (Block, '
+         'BlockInfo, McStateExtra, ShardStateUnsplit, ValueFlow) run only under the Go oracles; Message/Transaction '
+         'take the hash result as an oracle column; GetTransactions is not exercised on the Go side; no proved '
+         'refinement between the exotic-aware walker and TlbCore.dec (tied by correspondence instead).',
  'technique': 'Coq resource-logic (potential function) totality/allocation proof of a panic-annotated decoder model '
               '+ schema obligations by vm_compute + extracted-model correspondence on malformed streams in a guarded '
               'child'}
